@@ -1,4 +1,6 @@
 fn main() {
+    // `--cfg rigetti_quil_rs_verif` enables add-only verification hooks (src/verif_hooks.rs).
+    println!("cargo::rustc-check-cfg=cfg(rigetti_quil_rs_verif)");
     #[cfg(feature = "python")]
     {
         pyo3_build_config::add_extension_module_link_args();
